@@ -135,7 +135,10 @@ deriving DecidableEq, Repr
 /-- Observable outcome: the node id of the value of the defining binding, or a failure. -/
 inductive Outcome where
   | bound (valueNode : Nat)
+  /-- the final `.value` raised -/
   | fail (f : Fail)
+  /-- a step before the final `.value` raised (no identifier was reached) -/
+  | nav (f : Fail)
 deriving DecidableEq, Repr
 
 inductive Step where
